@@ -15,6 +15,8 @@ pub enum SPart {
     Prefix,
     Pos,
     Len,
+    /// a custom key whose output is a line break followed by this text
+    KeyNl(String),
 }
 
 /// A "simple template": its expansion depends on the logical state only.
@@ -38,6 +40,7 @@ impl STpl {
                     SPart::Prefix => t.push_str("{prefix}"),
                     SPart::Pos => t.push_str("{pos}"),
                     SPart::Len => t.push_str("{len}"),
+                    SPart::KeyNl(_) => t.push_str("{verif_nl}"),
                 }
             }
         }
@@ -45,7 +48,14 @@ impl STpl {
     }
 
     pub fn style(&self) -> ProgressStyle {
-        ProgressStyle::with_template(&self.template()).expect("simple template must parse")
+        let st = ProgressStyle::with_template(&self.template()).expect("simple template must parse");
+        match self.lines.iter().flatten().find_map(|p| if let SPart::KeyNl(t) = p { Some(t.clone()) } else { None }) {
+            Some(text) => st.with_key("verif_nl", move |_: &indicatif::ProgressState, w: &mut dyn std::fmt::Write| {
+                let _ = w.write_str("\n");
+                let _ = w.write_str(&text);
+            }),
+            None => st,
+        }
     }
 
     /// The frame lines for a logical state (reference renderer of the simple family).
@@ -63,6 +73,10 @@ impl STpl {
                     SPart::Prefix => s.push_str(&crate::model::expand_tabs(&st.prefix, st.tab_width)),
                     SPart::Pos => s.push_str(&st.pos.to_string()),
                     SPart::Len => s.push_str(&len.to_string()),
+                    SPart::KeyNl(t) => {
+                        s.push('\n');
+                        s.push_str(t);
+                    }
                 }
             }
             // every template line but the last always yields output; the last only when non-empty
